@@ -1,6 +1,7 @@
 #!/venv/bin/python
 """Regenerate /verif/MANIFEST.json from the rule modules (run from /verif).  Hand-maintained texts live in the
 rule modules (EXPLANATION / TECHNIQUE / LEVEL_TEXT) and in NOT_APPLICABLE below."""
+RP = "  Additionally rule <ID>-RP runs four shared pitfall lints over the files the property is anchored in (a shared mutable fill that is written through, a per-iteration value that leaks into the next loop iteration, a mutated mutable default argument, a stored late-binding closure); it decides the absence of these defect shapes in the mechanism's code, not the behaviour."
 import importlib
 import json
 import os
@@ -50,7 +51,7 @@ def main():
                                 "(numerical equality for all inputs) is not proved."),
                 "design_ref": f"DESIGN.md §4 {pid}",
             },
-            "level_note": mod.EXPLANATION,
+            "level_note": mod.EXPLANATION + RP.replace("<ID>", pid),
         })
     manifest = {
         "version": 1,
